@@ -18,10 +18,14 @@ func genC02(g *Gen, tier string) *Program {
 	if tier == "thorough" {
 		maxOps = 16
 	}
+	// The statement is about one updating goroutine per gauge; a fifth of the
+	// programs let several tasks update one gauge all the same. For those only
+	// the clauses that do not depend on an order of the updates apply (every
+	// delivered value was passed to Update; never more deliveries than updates).
 	genWorkload(g, p, wlOpts{
 		tasks: [2]int{1, 3}, ops: [2]int{3, maxOps}, scopes: 2,
 		wDerive: 2, wGauge: 3, wUpd: 9, wClose: 2, wSleep: 1, wYield: 1, wCounter: 1, wInc: 1,
-		reacquire: 80, closer: 35, ownGauge: true,
+		reacquire: 80, closer: 35, ownGauge: !g.Bool(20),
 	})
 	if g.Bool(30) {
 		// bystanders: tasks that ask for a gauge of another task at the same time
